@@ -759,6 +759,7 @@ impl AssemblyCode {
                             accumulator = None;
                             x_register = None;
                             y_register = None;
+                            flags = FlagsState::Unknown;
                         }
                         AsmMnemonic::CPX | AsmMnemonic::CPY | AsmMnemonic::CMP => {
                             flags = FlagsState::Unknown;
@@ -805,16 +806,21 @@ impl AssemblyCode {
                 accumulator = None;
                 x_register = None;
                 y_register = None;
-                // Analyze the first instruction to check for a load
+                // Analyze the first instruction to check for a load. The two removed instructions
+                // may be the ones the flags were believed to come from
+                flags = FlagsState::Unknown;
                 if let Some(AsmLine::Instruction(inst)) = &first {
                     if inst.mnemonic == AsmMnemonic::LDA {
                         accumulator = Some(inst.dasm_operand.clone());
+                        flags = FlagsState::A;
                     }
                     if inst.mnemonic == AsmMnemonic::LDX {
                         x_register = Some(inst.dasm_operand.clone());
+                        flags = FlagsState::X;
                     }
                     if inst.mnemonic == AsmMnemonic::LDY {
                         y_register = Some(inst.dasm_operand.clone());
+                        flags = FlagsState::Y;
                     }
                 } else {
                     unreachable!();
